@@ -11,3 +11,4 @@ import TeosVerif.Props.C19
 #print axioms Teos.C19.full_stays_full
 #print axioms Teos.C19.full_after_bootstrap
 #print axioms Teos.C19.full_statement_fails
+#print axioms Teos.C19.the_tower_boots_its_lookups_from_the_most_recent_blocks
